@@ -136,8 +136,49 @@ def _norm_of(call: ast.Call) -> str:
     return unparse(n) if n is not None else "None"
 
 
+def _rule_back_propagation(check, repo: Repo) -> None:
+    """R8: the analytical back-propagation applies the ELEMENT-WISE conjugate of the forward kernel.  The propagator is a multiplier in Fourier
+    space (a diagonal operator): its adjoint — and, being unit-modulus, its inverse — is conj(kernel).  `.adjoint()` / `.mH` / `.H` are the conjugate
+    TRANSPOSE of the 2-D array, a different kernel whenever the array is not symmetric (tilted illumination, anisotropic sampling)."""
+    omod, bw = repo.func(f"{OMD}:ObjectPixelated.backward")
+    check.analysed(f"{OMD}:ObjectPixelated.backward")
+    ELEMENTWISE = {"conj", "conj_physical", "conjugate"}
+    TRANSPOSING = {"adjoint", "mH", "H", "T", "mT", "transpose", "t", "permute"}
+    n = 0
+    for c in calls_in(bw):
+        if not ((call_name(c) or "").endswith("_propagate_array") and len(c.args) >= 2):
+            continue
+        n += 1
+        k = c.args[1]
+        ops = []
+        x = k
+        while True:
+            if isinstance(x, ast.Call) and isinstance(x.func, ast.Attribute) and (x.func.attr in ELEMENTWISE | TRANSPOSING) and not (call_name(x) or "").startswith(("torch.", "np.")):
+                ops.append(x.func.attr)
+                x = x.func.value
+            elif isinstance(x, ast.Call) and (call_name(x) or "").split(".")[-1] in ELEMENTWISE | TRANSPOSING and x.args:
+                ops.append((call_name(x) or "").split(".")[-1])
+                x = x.args[0]
+            elif isinstance(x, ast.Attribute) and x.attr in TRANSPOSING:
+                ops.append(x.attr)
+                x = x.value
+            else:
+                break
+        if "propagators" not in unparse(x):
+            raise AnalysisError(f"ObjectPixelated.backward: kernel `{unparse(k)[:60]}` of the back-propagation is not derived from `propagators`")
+        n_conj = sum(1 for o in ops if o in ELEMENTWISE | {"adjoint", "mH", "H"})
+        transposed = sum(1 for o in ops if o in TRANSPOSING) % 2 == 1
+        check.decide(n_conj % 2 == 1 and not transposed, "C16-R8", "ObjectPixelated.backward: the back-propagation kernel is the element-wise conjugate of the forward kernel",
+                     unparse(k)[:60], omod.line(c), definite=True,
+                     fail_detail=f"`{unparse(k)[:60]}` " + ("transposes the kernel array: for a non-symmetric kernel (unequal tilts, anisotropic sampling) propagating by +dz and back is no longer "
+                                                            "the identity and the gradient is not the adjoint of the forward operator" if transposed else
+                                                            "is not conjugated: the back-propagation applies the forward kernel again"))
+    check.floor("back-propagation sites", n, 1)
+
+
 def run(check, repo: Repo) -> None:
     propagator_rules(check, repo)
+    _rule_back_propagation(check, repo)
     _run_rest(check, repo)
 
 
@@ -638,3 +679,4 @@ MANIFEST = {
     "technique": "value-kind normal form of exponents (powers of i) + typestate for centring + kinded-axis analysis + sibling agreement",
 }
 MANIFEST["text"] += ' Also: frequency vectors are found by their fftfreq definition (extent and sampling of the same axis through casts/destructuring), each broadcast use lies on its own axis, each tilt component multiplies the frequencies of its own axis; the detector model centres with fftshift over the detector axes (the operator the projection inverts).'
+MANIFEST["text"] += ' R8: ObjectPixelated.backward applies the ELEMENT-WISE conjugate of the forward kernel (conj / conj_physical), never a conjugate transpose (.adjoint() / .mH / .H).'
